@@ -202,11 +202,11 @@ func parseCase(line string) (Case, error) {
 func nVariants(dk byte) int {
 	switch dk {
 	case 'c':
-		return 6
+		return 8
 	case 'i':
-		return 4
+		return 6
 	default:
-		return 5
+		return 6
 	}
 }
 
@@ -269,6 +269,28 @@ func (m *Model) DefineAs(vm int, dk byte, name, serial int) {
 		m.T[vm][k] = append(m.T[vm][k], serial)
 	}
 	m.Owner[serial] = "whichever VMs ran the declaring base closure"
+}
+
+// Undo removes a definition that turned out not to have been made (refused eval).
+func (m *Model) Undo(vm int, dk byte, name, serial int) {
+	k := cellKey{dk, name}
+	if vm == 0 {
+		if m.B[k] == serial {
+			delete(m.B, k)
+		}
+	} else {
+		l := m.T[vm][k]
+		for i, s := range l {
+			if s == serial {
+				m.T[vm][k] = append(l[:i:i], l[i+1:]...)
+				break
+			}
+		}
+		if len(m.T[vm][k]) == 0 {
+			delete(m.T[vm], k)
+		}
+	}
+	delete(m.Owner, serial)
 }
 
 func (m *Model) Discard(vm int) {
